@@ -35,7 +35,7 @@ func fatalf(f string, a ...interface{}) {
 
 var typeSubst = map[string]map[string]string{
 	"sync": {"Mutex": "Mutex", "RWMutex": "RWMutex", "WaitGroup": "WaitGroup"},
-	"time": {"Now": "Now", "Since": "Since", "Sleep": "Sleep", "After": "After"},
+	"time": {"Now": "Now", "Since": "Since", "Sleep": "Sleep", "After": "After", "AfterFunc": "AfterFunc"},
 	"os": {"File": "File", "Open": "Open", "Create": "Create", "OpenFile": "OpenFile", "Rename": "Rename",
 		"Remove": "Remove", "RemoveAll": "RemoveAll", "Truncate": "Truncate", "Mkdir": "Mkdir", "MkdirAll": "MkdirAll"},
 	"ioutil": {"WriteFile": "WriteFile"},
@@ -44,7 +44,7 @@ var typeSubst = map[string]map[string]string{
 
 var forbidden = map[string]map[string]bool{
 	"sync": {"Once": true, "Cond": true, "Map": true, "Pool": true, "NewCond": true, "Locker": true},
-	"time": {"NewTimer": true, "Tick": true, "AfterFunc": true, "NewTicker": true, "Timer": true, "Ticker": true},
+	"time": {"NewTimer": true, "Tick": true, "NewTicker": true, "Timer": true, "Ticker": true},
 	"os":   {"WriteFile": true, "CreateTemp": true, "Link": true, "Symlink": true, "Chtimes": true},
 	"ioutil": {"TempFile": true, "TempDir": true},
 }
